@@ -39,9 +39,11 @@ struct World {
     arrived: BTreeMap<usize, Waker>,
     polled: BTreeSet<usize>,
     tasks: Vec<Task>,
+    /// spawned tasks whose future panicked (the panic is owed to whoever awaits the JoinHandle)
+    task_panics: usize,
 }
 thread_local! {
-    static WORLD: RefCell<World> = RefCell::new(World { active: false, released: BTreeSet::new(), arrived: BTreeMap::new(), polled: BTreeSet::new(), tasks: Vec::new() });
+    static WORLD: RefCell<World> = RefCell::new(World { active: false, released: BTreeSet::new(), arrived: BTreeMap::new(), polled: BTreeSet::new(), tasks: Vec::new(), task_panics: 0 });
 }
 pub fn active() -> bool {
     WORLD.with(|w| w.borrow().active)
@@ -144,7 +146,10 @@ pub mod shim {
             let out = match r {
                 Ok(Poll::Pending) => return Poll::Pending,
                 Ok(Poll::Ready(v)) => Ok(v),
-                Err(p) => Err(JoinError(vrt::panic_msg(&p))),
+                Err(p) => {
+                    WORLD.with(|w| w.borrow_mut().task_panics += 1);
+                    Err(JoinError(vrt::panic_msg(&p)))
+                }
             };
             let mut s = s2.lock().unwrap();
             s.0 = Some(out);
@@ -232,6 +237,7 @@ pub fn run_one(
         w.arrived.clear();
         w.polled.clear();
         w.tasks.clear();
+        w.task_panics = 0;
     });
     let mut ex = Exec {
         value: None,
@@ -284,6 +290,11 @@ pub fn run_one(
                 (w.released.clone(), w.arrived.keys().cloned().collect::<BTreeSet<usize>>())
             });
             ex.invariant_violation = inv(&rel, &arr, &snapshot);
+            // a task of the current step has panicked and its JoinHandle woke the macro's future; the future has been polled since
+            // (nothing is runnable) and is STILL pending: the caller is left blocked behind a sibling although a panic is owed
+            if ex.invariant_violation.is_none() && !root_done && WORLD.with(|w| w.borrow().task_panics > 0) {
+                ex.invariant_violation = Some("quiescent state: a spawned branch has panicked, nothing is runnable, and the macro's future is still pending — the panic does not reach the caller until an unrelated sibling completes (the caller is left blocked)".into());
+            }
         }
         WORLD.with(|w| {
             let w = w.borrow();
